@@ -131,7 +131,7 @@ def check_range(prog: Program, res: Result) -> None:
     de = prog.func(f"{EM}:distance_to_edge")
     res.touch(de)
     cl = [c for c in walk_function(de.node) if isinstance(c, ast.Call) and norm(c.func) in ("torch.clamp", "torch.clip")]
-    ok = len(cl) == 1 and {k.arg: astq.const_value(k.value) for k in cl[0].keywords} == {"min": 0, "max": 1}
+    ok = len(cl) == 1 and astq.const_value(astq.call_arg(cl[0], 1, "min")) == 0 and astq.const_value(astq.call_arg(cl[0], 2, "max")) == 1
     res.ob(R, ok, de.qualname, "projection clamped to the segment [0, 1]", "the projection onto the edge is not clamped to [0,1] (weight 1 beyond the endpoints)", de.where)
     rets = [n for n in walk_function(de.node) if isinstance(n, ast.Return)]
     sg2 = S.Sign(de.node, {})
@@ -186,7 +186,7 @@ def check_dir(prog: Program, res: Result) -> None:
     res.ob(R, ok_layout and ok_prod and ok_w and U is not None, fi.qualname, "field = weight * unit vector, laid out as (edges, 2, H, W)",
            "the PAF is not weight x unit-vector permuted to (edges, xy, height, width)", fi.where)
     mk = [c for c, q in prog.calls_in(fi) if q == f"{EM}:make_edge_maps"]
-    ok = len(mk) == 1 and {k.arg: norm(k.value) for k in mk[0].keywords} == {"xv": "xv", "yv": "yv", "edge_source": "edge_source", "edge_destination": "edge_destination", "sigma": "sigma"}
+    ok = len(mk) == 1 and {k_: norm(v_) for k_, v_ in astq.bind_args(prog.func(f"{EM}:make_edge_maps"), mk[0]).items()} == {"xv": "xv", "yv": "yv", "edge_source": "edge_source", "edge_destination": "edge_destination", "sigma": "sigma"}
     res.ob(R, ok, fi.qualname, "weight computed for the same source/destination", "make_edge_maps is not called with the same grid, source and destination", fi.where)
     ge = prog.func(f"{EM}:get_edge_points")
     res.touch(ge)
